@@ -97,6 +97,9 @@ func newPos(l *lookup, fileName, funcName string, line, column int) pos {
 	return pos((fileNameIdx << 48) | (funcNameIdx << 32) | (line << 16) | column)
 }
 
+// sameLine: both positions are on one line of one file (a position that was never set goes with any line).
+func sameLine(a, b pos) bool { return a == 0 || b == 0 || a>>16 == b>>16 }
+
 func (p pos) IsZero() bool {
 	// return false
 	return p == 0
@@ -992,54 +995,58 @@ func (c *compiler) optimize(in []instruction) []instruction {
 func (c *compiler) doOptimize(in []instruction) []instruction {
 	var out []instruction
 	for n := 0; n < len(in); n++ {
+		// a window is fused only if its instructions come from one source line: the fused instruction has
+		// one position, and a failure must be reported on the line the unfused code reports it on
+		w2 := n < len(in)-1 && sameLine(in[n].Pos, in[n+1].Pos)
+		w3 := n < len(in)-2 && w2 && sameLine(in[n].Pos, in[n+2].Pos)
 		switch {
-		case n < len(in)-2 && in[n].Code == codeLocalGet && in[n+1].Code == codeIncDec && in[n+2].Code == codeLocalSet && in[n].A == in[n+2].A:
+		case w3 && in[n].Code == codeLocalGet && in[n+1].Code == codeIncDec && in[n+2].Code == codeLocalSet && in[n].A == in[n+2].A:
 			out = append(out, instruction{Pos: in[n].Pos, Code: codeLocalIncDec, A: in[n].A, B: in[n+1].A})
 			n += 2
 
-		case n < len(in)-2 && in[n].Code == codeLocalGet && in[n+1].Code == codeLocalGet && in[n+2].Code == codeAdd:
+		case w3 && in[n].Code == codeLocalGet && in[n+1].Code == codeLocalGet && in[n+2].Code == codeAdd:
 			out = append(out, instruction{Pos: in[n].Pos, Code: codeLocalAdd, A: in[n].A, B: in[n+1].A})
 			n += 2
-		case n < len(in)-2 && in[n].Code == codeLocalGet && in[n+1].Code == codeLocalGet && in[n+2].Code == codeMul:
+		case w3 && in[n].Code == codeLocalGet && in[n+1].Code == codeLocalGet && in[n+2].Code == codeMul:
 			out = append(out, instruction{Pos: in[n].Pos, Code: codeLocalMul, A: in[n].A, B: in[n+1].A})
 			n += 2
-		case n < len(in)-2 && in[n].Code == codeLocalGet && in[n+1].Code == codeLocalGet && in[n+2].Code == codeDiv:
+		case w3 && in[n].Code == codeLocalGet && in[n+1].Code == codeLocalGet && in[n+2].Code == codeDiv:
 			out = append(out, instruction{Pos: in[n].Pos, Code: codeLocalDiv, A: in[n].A, B: in[n+1].A})
 			n += 2
-		case n < len(in)-2 && in[n].Code == codeLocalGet && in[n+1].Code == codeLocalGet && in[n+2].Code == codeSub:
+		case w3 && in[n].Code == codeLocalGet && in[n+1].Code == codeLocalGet && in[n+2].Code == codeSub:
 			out = append(out, instruction{Pos: in[n].Pos, Code: codeLocalSub, A: in[n].A, B: in[n+1].A})
 			n += 2
 
-		case n < len(in)-2 && in[n].Code == codeLocalGet && in[n+1].Code == codeConst && in[n+2].Code == codeGet:
+		case w3 && in[n].Code == codeLocalGet && in[n+1].Code == codeConst && in[n+2].Code == codeGet:
 			out = append(out, instruction{Pos: in[n].Pos, Code: codeFastGet, A: in[n].A, B: in[n+1].A})
 			n += 2
-		case n < len(in)-2 && in[n].Code == codeLocalGet && in[n+1].Code == codeConst && in[n+2].Code == codeSet:
+		case w3 && in[n].Code == codeLocalGet && in[n+1].Code == codeConst && in[n+2].Code == codeSet:
 			out = append(out, instruction{Pos: in[n].Pos, Code: codeFastSet, A: in[n].A, B: in[n+1].A})
 			n += 2
-		case n < len(in)-2 && in[n].Code == codeLocalGet && in[n+1].Code == codePush && in[n+2].Code == codeGet:
+		case w3 && in[n].Code == codeLocalGet && in[n+1].Code == codePush && in[n+2].Code == codeGet:
 			out = append(out, instruction{Pos: in[n].Pos, Code: codeFastGetInt, A: in[n].A, B: in[n+1].A})
 			n += 2
-		case n < len(in)-2 && in[n].Code == codeLocalGet && in[n+1].Code == codePush && in[n+2].Code == codeSet:
+		case w3 && in[n].Code == codeLocalGet && in[n+1].Code == codePush && in[n+2].Code == codeSet:
 			out = append(out, instruction{Pos: in[n].Pos, Code: codeFastSetInt, A: in[n].A, B: in[n+1].A})
 			n += 2
-		case n < len(in)-2 && in[n].Code == codeLocalGet && in[n+1].Code == codeGetAttr && in[n+2].Code == codeCall:
+		case w3 && in[n].Code == codeLocalGet && in[n+1].Code == codeGetAttr && in[n+2].Code == codeCall:
 			out = append(out, instruction{Pos: in[n].Pos, Code: codeFastCallAttr, A: in[n].A, B: in[n+1].A, C: joinParams(in[n+2].A, in[n+2].B)})
 			n += 2
-		case n < len(in)-1 && in[n].Code == codeGlobalGet && in[n+1].Code == codeCall:
+		case w2 && in[n].Code == codeGlobalGet && in[n+1].Code == codeCall:
 			out = append(out, instruction{Pos: in[n].Pos, Code: codeFastCall, A: in[n].A, B: in[n+1].A, C: in[n+1].B})
 			n += 1
 
-		case n < len(in)-1 && in[n].Code == codeLocalGet && in[n+1].Code == codeGetAttr:
+		case w2 && in[n].Code == codeLocalGet && in[n+1].Code == codeGetAttr:
 			out = append(out, instruction{Pos: in[n].Pos, Code: codeFastGetAttr, A: in[n].A, B: in[n+1].A})
 			n += 1
-		case n < len(in)-1 && in[n].Code == codeLocalGet && in[n+1].Code == codeSetAttr:
+		case w2 && in[n].Code == codeLocalGet && in[n+1].Code == codeSetAttr:
 			out = append(out, instruction{Pos: in[n].Pos, Code: codeFastSetAttr, A: in[n].A, B: in[n+1].A})
 			n += 1
 
-		case n < len(in)-1 && in[n].Code == codePush && in[n+1].Code == codeAdd:
+		case w2 && in[n].Code == codePush && in[n+1].Code == codeAdd:
 			out = append(out, instruction{Pos: in[n].Pos, Code: codeIncDec, A: in[n].A})
 			n += 1
-		case n < len(in)-1 && in[n].Code == codePush && in[n+1].Code == codeSub && in[n].A != 0:
+		case w2 && in[n].Code == codePush && in[n+1].Code == codeSub && in[n].A != 0:
 			// (x - 0 is not x + (-0) for a float64 negative zero: it stays a subtraction)
 			out = append(out, instruction{Pos: in[n].Pos, Code: codeIncDec, A: -in[n].A})
 			n += 1
